@@ -256,6 +256,15 @@ def run(ctx):
             ok,
         )
     ctx.floor("R4.pairs", 6)
+    # ... and so does every other predicate of the module ("False for all other values": an is_x that
+    # lets the checker's exception through does not answer)
+    for q in sorted(q for q, f in prog.funcs.items() if f.mod.short == "common" and f.cls is None and f.parent is None and q.split(".")[-1].startswith("is_") and q.split(".")[-1][3:] not in PAIRS and (q in SPECS or "common.checkformat_" + q.split(".")[-1][3:] in prog.funcs)):
+        # (the predicates that have a raising form, or a grammar of their own in this check; with
+        # optional parameters added later at their defaults)
+        smq = eng.walk(q)
+        esc = sorted({xx.exc for xx, cc in smq.escapes if xx.origin != "resource" and not refuted_at_defaults(eng, q, (smq.params[0],), set(cc))})
+        ctx.count("R4.other_predicates")
+        ctx.ob("R4", "predicate-total|%s" % q, fn_site(eng, smq).loc(), "%s %s" % (q, "answers True or False for every value" if not esc else "may raise %s instead of answering False" % ", ".join(esc)), not esc)
 
 
 def predicate_exact(eng, q, kind, n=None):
